@@ -3,7 +3,7 @@ import hashlib
 import z3
 import engine as E
 from engine import *
-from intrinsics import I, ret, uf_bytes, py_str
+from intrinsics import I, ret, uf_bytes, uf_concrete, py_str
 
 
 # ------------------------------------------------------------------ SHA-256 / SHA-512 (ideal hash)
@@ -13,6 +13,7 @@ def hash_apply(it, st, algo, vals):
     outbits = {'sha256': 256, 'sha512': 512}[algo]
     if all(not is_sym(x) for x in vals):
         d = hashlib.new(algo, bytes(vals)).digest()
+        uf_concrete(it, 'UF_' + algo, vals, int.from_bytes(d, 'big'), outbits)
         out = z3.BitVecVal(int.from_bytes(d, 'big'), outbits)
         res = list(d)
     else:
